@@ -24,9 +24,9 @@ FORMS = ["int", "float", "complex", "str", "bytes", "bool", "None", "object", "A
 GENERIC_FORMS = ["Box[int]", "Box[str]", "Sub[int]", "Sub[str]", "Tagged[int]", "Tagged[str]", "Pair[int]", "Box[tuple[int, int]]"]
 CORE = ["int", "str", "None", "A", "B", "list[int]", "list[str]", "object"]
 
-HEADER = ("from typing import Any, Callable, Generic, TypeVar, Union, overload\n\n"
+HEADER = ("from typing import Any, Callable, Generic, Literal, TypeVar, Union, overload\n\n"
           "T = TypeVar('T')\n"
-          "class A: ...\nclass B(A): ...\nclass C: ...\nclass D(B): ...\n"
+          "class A: ...\nclass B(A): ...\nclass C: ...\nclass D(B): ...\nclass E(A): ...\n"
           "class Box(Generic[T]): ...\nclass Sub(Box[T]): ...\nclass Tagged(Box[int], Generic[T]): ...\n"
           "class Pair(Box[tuple[T, T]]): ...\n\n")
 
@@ -106,6 +106,15 @@ def modules(tier):
         fdecl.append("@overload\ndef f(%s%s) -> %s: ...\n@overload\ndef f(%s%s) -> %s: ..." % (head, t1, r1, head, t2, r2))
   for a, b in itertools.permutations(GENERIC_FORMS[:6], 2):
     fdecl.append("def f(a: Union[%s, %s]) -> Union[%s, %s]: ..." % (a, b, b, a))
+  # siblings under one base together with members that are neither classes nor containers
+  others = ["Literal['x']", "Literal[1]", "T", "None", "Callable[[], int]", "tuple[int, str]", "type[C]"]
+  for o in others:
+    decls_extra = ["x: Union[B, E, %s]" % o, "x: Union[%s, E, B]" % o, "x: Union[B, %s]" % o, "x: Union[D, E, C, %s]" % o]
+    for d in decls_extra:
+      if "T" not in d.split("Union")[1].replace("Literal", "").replace("tuple", "").replace("type", ""):
+        decls.append(d)
+    fdecl.append("def f(a: Union[B, E, %s]) -> Union[E, B, %s]: ..." % (o, o))
+    fdecl.append("def f(a: Union[B, E], b: %s) -> Union[B, %s]: ..." % (o, o))
   # methods / class constants
   cdecl = []
   for a, b in itertools.permutations(CORE, 2):
@@ -131,6 +140,7 @@ def universe():
   class B(A): pass
   class C: pass
   class D(B): pass
+  class E(A): pass
   class Box:
     def __init__(self, v):
       self.v = v
@@ -148,9 +158,9 @@ def universe():
   class Pair(Box):     # Pair(Box[tuple[T, T]])
     def __vk_view__(self, base):
       return {"Box": [[self.v]], "Pair": [list(self.v)]}.get(base)
-  ns = {"A": A, "B": B, "C": C, "D": D, "Box": Box, "Sub": Sub, "Tagged": Tagged, "Pair": Pair}
+  ns = {"A": A, "B": B, "C": C, "D": D, "E": E, "Box": Box, "Sub": Sub, "Tagged": Tagged, "Pair": Pair}
   vals = [0, 1, True, False, 1.5, 1j, "a", "", b"b", None, object(),
-          A(), B(), C(), D(), A, B, C, D, int, str, type,
+          A(), B(), C(), D(), E(), A, B, C, D, E, int, str, type, "x", "y",
           [], [1], ["a"], [1, "a"], [None], [1.5], [A()], [B()], [C()], [[1]], [["a"]], [[]], [(1, "a")], [True],
           {}, {"k": 1}, {"k": "a"}, {"k": None}, {1: 1}, {"k": [1]},
           (), (1,), ("a",), (1, "a"), ("a", 1), (1, 2), ("a", "b"), (1, 2, 3), (1, "a", 1), (None,), (A(),),
